@@ -19,7 +19,9 @@ def main(ctx):
     tensorapi.rule_call_validation(ctx, ix)
     tensorapi.rule_call_semantics(ctx, ix)
     tensorapi.rule_problem_validation(ctx, ix)
-    ctx.rule("C10.axis-typing", "sizes are read in dimension order, formats compared level-wise", min_instances=2)
+    # supplementary: the deciding rule for "which size is compared with which" is C10.call-semantics (every
+    # scenario has distinct sizes per axis); typed subscripts exist only while the idiom is recognised, so no floor
+    ctx.rule("C10.axis-typing", "sizes are read in dimension order, formats compared level-wise", min_instances=0)
     axis.run_axis(ctx, ix, "C10.axis-typing", modules=["tensora.compile._tensor_method", "tensora.problem"])
 
 
